@@ -8,6 +8,7 @@ CONSTANTS
   AttrStride = 40
   TripleStride = 30
   ValueStride = 120
+  PointStride = 12
   ShapeFrom = "named dims"
 CONSTRAINT Export
 INVARIANT ImplRefinesReq
@@ -17,6 +18,7 @@ INVARIANT LawBoxIsCentreRule
 INVARIANT LawCellsMonotone
 INVARIANT LawInIsTouched
 INVARIANT LawSameBins
+INVARIANT LawDense
 INVARIANT LawSatisfiable
 PROPERTY Terminates
 CHECK_DEADLOCK FALSE
